@@ -15,10 +15,10 @@
    emitter after the fix: commits 1a38871, 9e61cd0, 7e52753, e113795 (nil pointer arguments);
    the correspondence stream c12 ties them to the generated code in all argument forms.
 
-   Statements only; proofs in Proofs/FormsGet.v and Proofs/FormsMain.v. *)
+   Statements only; proofs in Proofs/FormsGet.v, Proofs/FormsMain.v, Proofs/GetBuf.v and Proofs/FormsSeq.v. *)
 From Coq Require Import List Bool String Ascii ZArith Arith.
 From Verif Require Import Util Ints Node GoSrc Value Outcome LC Get Cmp Loop Deq InsReset InsCopy SetEmit
-  FormsSpec Api ApiSeq FormsGet FormsMain FormsSeq Shapes GenUnits.
+  FormsSpec Api ApiSeq FormsGet FormsMain GetBuf FormsSeq Shapes GenUnits.
 Import ListNotations.
 
 (* ================= the same answer in the three forms ================= *)
@@ -146,6 +146,54 @@ Theorem C12_read_history_forms : forall n v (rest : store) h, reads_only h = tru
 Proof. exact history_forms. Qed.
 Print Assumptions C12_read_history_forms.
 
+(* ---------- histories that share ONE caller-owned result buffer ----------
+   GetTo answers through a buffer of the caller (a pointer to an any), and callers hand the same buffer to call after call: the
+   buffer then holds the answer of the call before - for a struct field a pointer INTO the object that call
+   inspected.  [brun] (Model/ApiSeq.v) threads that buffer through the history next to the store: a step is a call
+   with buffers of its own ([HCall], the histories above) or a GetTo that is handed the shared buffer ([HGetTo]). *)
+
+(* the emitted GetTo only ever OVERWRITES *buf: whatever the buffer holds, the call answers what it answers with an
+   empty buffer, "nothing stored" read as "the content is still there" (FormsSpec.rebuf) - for every node, argument
+   and path.  In particular the content of the buffer is never read and nothing is stored through it *)
+Theorem C12_read_history_getto_overwrites : forall n a path buf,
+  get_to false n a path buf = rebuf buf (get_to false n a path None).
+Proof. exact (get_to_buf false). Qed.
+Print Assumptions C12_read_history_getto_overwrites.
+
+(* a read history of any length over any store, whichever of its GetTo steps share the result buffer and whatever
+   the buffer holds at the start, changes nothing but that buffer: every step leaves every object as it was and
+   answers what the same call answers alone on the untouched store when handed the buffer as the steps before it
+   left it ([btrace]) *)
+Theorem C12_read_history_buffer : forall h s rb, breads_only h = true -> brun s rb h = btrace s rb h.
+Proof. exact read_history_buf. Qed.
+Print Assumptions C12_read_history_buffer.
+
+(* ... and that answer is the answer of the call with an empty buffer of its own, the shared buffer left exactly as
+   it was where that call stores nothing: no step depends on what the steps before it answered *)
+Theorem C12_read_history_buffer_alone : forall s rb i path,
+  balone s rb (i, HGetTo path) = option_map (rebuf_answer rb) (balone s None (i, HGetTo path)).
+Proof. exact getto_shared_alone. Qed.
+Print Assumptions C12_read_history_buffer_alone.
+
+(* the histories above are the histories that never hand the shared buffer over *)
+Theorem C12_read_history_buffer_own : forall h s rb,
+  brun s rb (own_buffers h) = map (fun x => (fst x, snd x, rb)) (run s h).
+Proof. exact brun_own_buffers. Qed.
+Print Assumptions C12_read_history_buffer_own.
+
+(* the three forms: object 0 by value against by pointer under buffers with the same content - the answers coincide
+   step by step and so does what the buffer holds after every step; by pointer-to-pointer against by pointer the
+   answers and the buffers are equal *)
+Theorem C12_read_history_buffer_forms : forall n v (rest : store) h, breads_only h = true ->
+  (forall bv bp, same_buf bv bp ->
+     Forall2 (fun x y => same_opt_answer (fst (fst x)) (fst (fst y)) /\ same_buf (snd x) (snd y))
+             (brun ((n, AVal v) :: rest) bv h) (brun ((n, APtr (Some v)) :: rest) bp h)) /\
+  (forall rb,
+     map (fun x => (fst (fst x), snd x)) (brun ((n, APtrPtr (Some (Some v))) :: rest) rb h) =
+     map (fun x => (fst (fst x), snd x)) (brun ((n, APtr (Some v)) :: rest) rb h)).
+Proof. intros n v rest h R. split; [apply history_forms_buf; exact R|apply history_ptrptr_buf; exact R]. Qed.
+Print Assumptions C12_read_history_buffer_forms.
+
 (* ================= the writers reject a by-value argument ================= *)
 
 Theorem C12_by_value_rejected : forall n v,
@@ -265,6 +313,18 @@ Example C12_demo_history :
                          ERequireKey true; ESetKey "1" "static"; ESetVal (VPtr (Some (VInt 6))) "static"; EIterate CNone] None));
     Some (AnsTrace (Ret entry None)) ] /\
   Forall (fun x => snd x = s) (run s [(0, demo_loop ["M"]); (1, demo_loop []); (0, demo_loop ["M"])]%nat).
+Proof. vm_compute. split; [reflexivity|repeat constructor]. Qed.
+
+(* a history that shares the result buffer and does something: GetTo of the field A (the buffer now holds a live
+   reference INTO the object), GetTo of the map entry M.k of the same type with the same buffer (a reference to a
+   local copy of the entry replaces it), GetTo of an absent entry (nothing stored: the buffer still holds the entry),
+   GetTo of the element of another object; every object is as it was after every step *)
+Example C12_demo_history_buffer :
+  let s := [(demo_node, APtr (Some demo_val)); (demo_ints, APtr (Some (VSlice false [VInt 4; VInt 6] 0)))] in
+  let h := [(0, HGetTo ["A"]); (0, HGetTo ["M"; "k"]); (0, HGetTo ["M"; "zz"]); (1, HGetTo ["1"])]%nat in
+  map (fun x => obs_of_buf (snd x)) (brun s None h) =
+    [BVal (VInt 7) true; BVal (VInt 9) false; BVal (VInt 9) false; BVal (VInt 6) false] /\
+  Forall (fun x => snd (fst x) = s) (brun s None h).
 Proof. vm_compute. split; [reflexivity|repeat constructor]. Qed.
 
 (* the nodes the stream runs: every supported unit of the representative set has a root node *)
